@@ -146,7 +146,9 @@ def run(pid, tier, seed):
             # more requests (and QUIT) arrive; more than iovMax reply segments queued behind a large one
             import raw_checks
             sq = [raw_checks.slow_reader_quit_scenario("slow-reader-quit-1"), raw_checks.slow_reader_quit_scenario("slow-reader-noquit", quit=False),
-                  raw_checks.slow_reader_quit_scenario("slow-reader-quit-2", bigsize=450000, nslow=2)]
+                  raw_checks.slow_reader_quit_scenario("slow-reader-quit-2", bigsize=450000, nslow=2),
+                  raw_checks.slow_reader_quit_scenario("slow-reader-quit-parked", parked=True),
+                  raw_checks.slow_reader_quit_scenario("slow-reader-quit-parked-2", bigsize=450000, nslow=2, parked=True)]
             if not q:
                 sq += [raw_checks.slow_reader_quit_scenario("slow-reader-quit-%d" % k, bigsize=sz, nslow=ns, quit=qq, drains=dr)
                        for k, (sz, ns, qq, dr) in enumerate([(1500000, 1, True, 6), (500000, 3, True, 2), (600000, 2, False, 4), (3000000, 1, True, 10)], 3)]
